@@ -11,13 +11,15 @@ import (
 
 // ---- accuracy of the general-radix passes ---------------------------------------
 //
-// checkDefsum accepts, for lengths with a prime factor p > 5, the error of the
-// rotation recurrences by which FFTPACK's radfg/radbg/passfg generate the
-// radix-p twiddle factors (about p^2*eps, see tolUnits). This sub-check asserts
-// the bound without that allowance on the real and complex FFT:
+// checkDefsum accepts, for the transforms built on the real FFT (FFT, DCT, DST,
+// QuarterWaveFFT) at lengths with a prime factor p > 5, the error of the
+// rotation recurrences by which FFTPACK's radfg/radbg generate the radix-p
+// twiddle factors (about p^2*eps, see tolUnits). This sub-check asserts the
+// bound without that allowance on the real FFT (and on the complex FFT, whose
+// general-radix pass reads tabulated twiddles and meets it):
 // C*(log2(n) + sum of the prime factors > 5) in units of eps*||x||_1, which is
-// what a radix-p butterfly evaluated as p-term sums with directly computed
-// twiddles satisfies with the same slack C = 50 as the other radices.
+// what a radix-p butterfly evaluated as p-term sums with accurate twiddles
+// satisfies with the same slack C = 50 as the other radices.
 
 func checkAccuracy(c dsCase) *vk.Failure {
 	n := c.N
@@ -48,13 +50,17 @@ func checkAccuracy(c dsCase) *vk.Failure {
 					break
 				}
 			}
+			if strict {
+				continue // the complex FFT was held to the strict bound in the first round
+			}
+			dz := dsCtx{c: c, strict: true}
 			want := refDFT(z, nzz, k, -1, tn)
-			if e, tol := cmplx.Abs(cf[k]-want), d.tol(n, 1, z1); !(e <= tol) {
+			if e, tol := cmplx.Abs(cf[k]-want), dz.tol(n, 1, z1); !(e <= tol) {
 				fail = d.fail("CmplxFFT.Coefficients", what, k, cf[k], want, e, tol)
 				break
 			}
 			want = refDFT(z, nzz, k, +1, tn)
-			if e, tol := cmplx.Abs(cb[k]-want), d.tol(n, 1, z1); !(e <= tol) {
+			if e, tol := cmplx.Abs(cb[k]-want), dz.tol(n, 1, z1); !(e <= tol) {
 				fail = d.fail("CmplxFFT.Sequence", what, k, cb[k], want, e, tol)
 				break
 			}
